@@ -218,6 +218,12 @@ def main():
             else:
                 res = run_fn(task)
         except BaseException as exc:  # pylint: disable=broad-exception-caught
+            if type(exc).__name__ in ('CrossHairInternal', 'UnknownSatisfiability', 'Z3Exception'):
+                # tool hazard (e.g. "Unexpected unsat from solver" while realising a symbolic value): no verdict for this condition
+                res = {'id': task['id'], 'kind': task['kind'], 'state': 'inconclusive', 'why': f'{type(exc).__name__}: {str(exc)[:200]}'}
+                sys.stdout.write('@@RESULT ' + json.dumps(res, default=repr) + '\n')
+                sys.stdout.flush()
+                continue
             res = {'id': task['id'], 'kind': task['kind'], 'state': 'error',
                    'error': f'{type(exc).__name__}: {exc}', 'traceback': traceback.format_exc()[-3000:]}
         sys.stdout.write('@@RESULT ' + json.dumps(res, default=repr) + '\n')
